@@ -15,10 +15,10 @@ func init() {
 		DesignRef: "DESIGN.md §5 C01",
 		Level: "Decides that samples can enter head memory only through commit or replay (never from Append* or Rollback), that both querier constructors merge every overlapping block, the " +
 			"in-order head and the out-of-order head, and that restart derives the replay cutoff from the in-order blocks and applies it to every sample kind before replay starts.",
-		Note:     "Trusted: go/packages, go/ssa + VTA (module-internal), go/cfg; rule tables in checker/c01.go.",
-		Covers:   "no-reach from Rollback and the Append* methods to memSeries.{append,appendHistogram,appendFloatHistogram,insert}; their caller set; source completeness of DB.Querier / blockChunkQuerierForRange; Head.Init cutoff order; per-kind replay cutoff tests and which field they compare.",
-		NotCover: "value equality, time order, one-sample-per-timestamp, tombstone arithmetic (runtime values).",
-		Run:      runC01,
+		Note:           "Trusted: go/packages, go/ssa + VTA (module-internal), go/cfg; rule tables in checker/c01.go.",
+		Covers:         "no-reach from Rollback and the Append* methods to memSeries.{append,appendHistogram,appendFloatHistogram,insert}; their caller set; source completeness of DB.Querier / blockChunkQuerierForRange; Head.Init cutoff order; per-kind replay cutoff tests and which field they compare.",
+		NotCover:       "value equality, time order, one-sample-per-timestamp, tombstone arithmetic (runtime values).",
+		Run:            runC01,
 		MinObligations: 35,
 	})
 }
